@@ -13,7 +13,6 @@ pub const REPLAY: &[(&str, fn(&mut vsrc::ReplaySrc))] = &[
     ("c42_reader_w1", |s| c42::h64::reader::<_, 1, 8, 4>(s)),
     ("c42_reader_w2", |s| c42::h64::reader::<_, 2, 8, 4>(s)),
     ("c42_reader32_w1", |s| c42::h32::reader::<_, 1, 8, 4>(s)),
-    ("c42_reader_stall_w1", |s| c42::h64::reader::<_, 1, 140, 1>(s)),
     ("c42_writer_trace", |s| c42::writer_trace(s)),
 ];
 
